@@ -394,7 +394,7 @@ func cliFaultScenario(seed uint64, family string, side, index, code, burst, epil
 	if epilogue == 0 {
 		sc.Steps = append(sc.Steps, Step{T: "close"})
 	} else {
-		sc.Steps = append(sc.Steps, Step{T: "reset"}, Step{T: "reconnect"})
+		sc.Steps = append(sc.Steps, Step{T: "reset", A: r.IntN(2)}, Step{T: "reconnect"})
 		st := g.batchStep(0, cliOps(g, 2))
 		st.T = "q"
 		sc.Steps = append(sc.Steps, st, Step{T: "await", A: 60}, Step{T: "close"})
@@ -424,7 +424,7 @@ func genCliFault(seed uint64, prop string) *Scenario {
 	sc.Steps = sc.Steps[:n-1]
 	g := newGen(seed, 0x636c6e, &sc.Cfg)
 	for c := 0; c < 1+r.IntN(3); c++ {
-		sc.Steps = append(sc.Steps, Step{T: "reset"})
+		sc.Steps = append(sc.Steps, Step{T: "reset", A: r.IntN(2)})
 		if r.IntN(5) == 0 {
 			sc.Steps = append(sc.Steps, Step{T: "reset"}) // twice in a row
 		}
@@ -555,6 +555,10 @@ func (cr *cliRun) invariant(when string, final bool) {
 				wantKey, gotKey = fmt.Sprint("nh:", t.NextHop.GetIndex()), fmt.Sprint("nh:", r.Details.NextHopIndex)
 			}
 			if r.Details.Type != wantT || wantKey != gotKey {
+				if cr.afterReset {
+					// after Reset and Connect the client must work as a fresh one (C14): this is state of the previous connection
+					e.report("C14", "stale-after-reset", "a result of the new connection carries the type or key of an operation of the previous one", fmt.Sprintf("%s: op %d is %s %s, result says %s %s", when, r.OperationID, wantT, wantKey, r.Details.Type, gotKey), false)
+				}
 				e.report("C13", "result-misattributed", "result carries another operation's type or key", fmt.Sprintf("%s: op %d is %s %s, result says %s %s", when, r.OperationID, wantT, wantKey, r.Details.Type, gotKey), false)
 			}
 		} else if !cr.srv.violated {
@@ -761,6 +765,12 @@ func runCli(e *env) {
 			default:
 			}
 			cr.handed, cr.order, cr.faulted, cr.afterReset = map[uint64]*spb.AFTOperation{}, nil, false, true
+			if st.A == 1 {
+				// the application numbers its operations from 1 again after Reset: nothing remembered about the
+				// operations of the previous connection may leak into the new ones
+				cr.nextID = 1
+				e.probe("client: operation ids restart after Reset")
+			}
 			cr.epoch++
 		case "reconnect":
 			cr.srv.violated = false
